@@ -322,7 +322,7 @@ func unmarshalSourceFile(source string) (*sourceFile, error) {
 	if err := json.Unmarshal([]byte(source), &file); err != nil {
 		return nil, err
 	}
-	if len(file.RelPath) < 1 {
+	if len(file.RelPath) < 1 || file.Size < 0 {
 		return nil, simpleTrzszError("Invalid source file: %s", source)
 	}
 	for _, name := range file.RelPath {
